@@ -10,6 +10,20 @@ is the one induced on the node list (reading A – what `topological_sort` does)
 from it (reading B – what `strongly_connected_components` does).  On those inputs only the clauses
 required under both readings are decided (`chk…Open`), and which reading each output satisfies is
 counted in the histogram.
+
+Presentation and history hardening: labels are arbitrary hashables chosen by a recipe (None, 0, '', (),
+frozenset(), floats, tuples, numeric-looking strings …) while Lean keeps receiving small integers; node
+iterables and neighbour results come in every Iterable style (list, tuple, generator, iter, map, reversed,
+dict views, the caller's own list object); `history` cases make 2-4 consecutive rounds of
+scc/topological_sort/condense (in varying order) inside one worker call, with ONE neighbour-function object
+over ONE adjacency dict and ONE node list that are edited in place between the rounds (the _edges variants:
+one edge list with aliased tuples); every round is judged on its own input, and a failure that disappears when
+that input is run alone in a fresh process gets the class suffix `:after_previous_call`.  A few large
+structured graphs (paths, cycles, deep DAGs, stars; 1100-3000 nodes) are judged by equality with the mirrors,
+which are proved correct for every input.  scc.py documents that graphs with a path of more than ~1000 nodes
+need a raised recursion limit, so the deep families (path, cycle, deep DAG, two joined cycles) run with
+`sys.setrecursionlimit(max(5000, 4n))` for the call, the shallow ones (sink-first path, star, wide DAG, many
+small components) under the default limit of the workers; RecursionError/MemoryError is a failure only then.
 """
 from __future__ import annotations
 
@@ -22,20 +36,66 @@ LEVEL = "proof"
 ASSUMPTIONS = [
     "Python dict/set/deque of scc.py modelled as functions and lists (insertion order, FIFO); the recursion "
     "of strongconnect is modelled with fuel = number of distinct vertices + 1, proved sufficient (visit_spec); "
-    "CPython's own recursion limit is not modelled",
+    "CPython's recursion limit is not part of the model.  scc.py documents that strongly_connected_components "
+    "recurses once per vertex of a DFS path and that graphs with paths of > 1000 nodes need "
+    "sys.setrecursionlimit raised: the deep large families (path, cycle, deep DAG, joined cycles) therefore run "
+    "with the limit raised to max(5000, 4n) for the call and a RecursionError counts as a failure only then; "
+    "the shallow large families (sink-first path, star, wide DAG, many small components) and all other cases "
+    "run under the default limit of 1000",
+    "large instances (1100-3000 nodes) are judged by equality of the returned values with the mirrors (proved "
+    "correct for every input), not by the cubic reachability checkers; a different answer there is reported "
+    "as an R_trace divergence",
     "neighbours outside the node list: the property is read as the clauses common to the induced-graph and "
     "the explored-graph reading (proved: chk...Open_correct, open_clauses_common); duplicate entries in the "
     "node iterable are outside the quantifier (SCC/condense judged on the node set, topological_sort only "
     "counted)",
 ]
 RULE = ("random digraphs with <= 9 nodes (12 in the thorough tier): several weak components, planted cycles, "
-        "DAG-biased instances, self loops, duplicate edges, shuffled node and neighbour order, int/str/mixed "
-        "labels, list/tuple/generator iterables, neighbours outside the node list (sinks or with own "
-        "neighbour lists), plus edge-list instances for the _edges variants (backend='python'); "
+        "DAG-biased instances, self loops, duplicate edges, shuffled node and neighbour order, int/str/mixed/odd "
+        "hashable labels (None, '', (), frozenset(), 0.5, ...), every Iterable style for the node iterable and "
+        "the neighbour results, neighbours outside the node list (sinks or with own neighbour lists), "
+        "edge-list instances for the _edges variants (backend='python', tuples/lists/aliased), call histories "
+        "(2-4 rounds over one mutable adjacency and one neighbour-function object), a few large structured "
+        "graphs (1100-3000 nodes); "
         "non-trivial = some component has >= 2 nodes or some node has a self loop (a DFS back edge); "
         "distinct by canonical (node list, neighbour table)")
 
 FUNCS = ("strongly_connected_components", "topological_sort", "condense")
+
+# odd hashable labels, pairwise different under == (so no 1/True/1.0 clashes)
+ODD = [None, 0, "", (), frozenset(), -1, 0.5, (0,), "0", "None", (None,), frozenset({0}), 1, "1", (1, 2), 2.5,
+       b"", "a b", -2, ((),)]
+NODE_STYLES = ["list", "list", "tuple", "gen", "iter", "map", "reversed", "dictkeys", "dict", "alias"]
+NBR_STYLES = ["list", "list", "tuple", "gen", "iter", "map", "reversed", "dictkeys", "alias"]
+EDGE_STYLES = ["tuples", "lists", "aliased"]
+
+
+def labeller(case):
+    """stored value -> the label handed to the implementation (identity unless the case has a recipe)."""
+    perm = case.get("labels")
+    if not perm:
+        return lambda x: x
+    return lambda x: ODD[perm[x]]
+
+
+def present(style, lst):
+    """One collection in the requested Iterable style; order (and duplicates) preserved."""
+    if style == "tuple":
+        return tuple(lst)
+    if style == "gen":
+        return (x for x in lst)
+    if style == "iter":
+        return iter(list(lst))
+    if style == "map":
+        return map(lambda x: x, list(lst))
+    if style == "reversed":
+        return reversed(list(lst)[::-1])
+    if style in ("dictkeys", "dict") and len(set(lst)) == len(lst):
+        d = dict.fromkeys(lst)
+        return d.keys() if style == "dictkeys" else d
+    if style == "alias":
+        return lst  # the caller's own list object
+    return list(lst)
 
 
 # ---------------------------------------------------------------------------
@@ -118,9 +178,24 @@ def gen_graph(rng, big: bool):
             missing = "keyerror"
     for v in table:
         rng.shuffle(table[v])
-    return {"kind": "graph", "nodes": nodes, "table": [[v, table[v]] for v in rng.sample(list(table), len(table))],
-            "nodes_style": rng.choice(["list", "list", "tuple", "gen", "dictkeys"]),
-            "nbr_style": rng.choice(["list", "list", "tuple", "gen"]), "missing": missing, "dup": False}
+    case = {"kind": "graph", "nodes": nodes, "table": [[v, table[v]] for v in rng.sample(list(table), len(table))],
+            "nodes_style": rng.choice(NODE_STYLES), "nbr_style": rng.choice(NBR_STYLES), "missing": missing,
+            "dup": False}
+    if rng.random() < 0.3:
+        relabel_odd(rng, case)
+    return case
+
+
+def relabel_odd(rng, case):
+    """Replace the labels by small integers plus a recipe mapping them to odd hashables."""
+    uni = universe(case)
+    ids = {v: i for i, v in enumerate(uni)}
+    case["nodes"] = [ids[v] for v in case["nodes"]]
+    case["table"] = [[ids[e[0]], [ids[w] for w in e[1]]] for e in case["table"]]
+    case["labels"] = rng.sample(range(len(ODD)), len(uni))
+    if rng.random() < 0.5 and uni:  # make sure None itself is among the labels
+        if 0 not in case["labels"]:
+            case["labels"][rng.randrange(len(uni))] = 0
 
 
 def gen_dup(rng):
@@ -129,9 +204,136 @@ def gen_dup(rng):
         for _ in range(rng.randint(1, 2)):
             c["nodes"].insert(rng.randrange(len(c["nodes"]) + 1), rng.choice(c["nodes"]))
         c["dup"] = True
-        if c["nodes_style"] == "dictkeys":
+        if c["nodes_style"] in ("dictkeys", "dict"):
             c["nodes_style"] = "list"
     return c
+
+
+def mutate_graph(rng, prev):
+    """A related graph over the same labels: the next round of a history."""
+    c = {**prev, "nodes": list(prev["nodes"]), "table": [[e[0], list(e[1])] for e in prev["table"]]}
+    op = rng.choice(["same", "edit", "edit", "narrow", "widen", "reverse", "clear"])
+    tab = {e[0]: e[1] for e in c["table"]}
+    nodes = c["nodes"]
+    if op == "edit" and nodes:
+        for _ in range(rng.randint(1, 3)):
+            u = rng.choice(nodes)
+            if tab.get(u) and rng.random() < 0.5:
+                tab[u].pop(rng.randrange(len(tab[u])))
+            else:
+                tab.setdefault(u, []).append(rng.choice(nodes))
+    elif op == "narrow" and len(nodes) >= 2:
+        drop = set(rng.sample(nodes, rng.randint(1, len(nodes) // 2)))
+        nodes[:] = [v for v in nodes if v not in drop]
+        tab = {u: [w for w in l if w not in drop] for u, l in tab.items() if u not in drop}
+    elif op == "widen":
+        spare = [x for x in prev.get("spare", []) if x not in nodes and x not in tab]
+        for x in spare[:rng.randint(1, 2)]:
+            nodes.insert(rng.randrange(len(nodes) + 1), x)
+            tab[x] = [rng.choice(nodes) for _ in range(rng.randint(0, 2))]
+            if len(nodes) > 1:
+                tab.setdefault(rng.choice(nodes), []).append(x)
+    elif op == "reverse":
+        rev = {u: [] for u in tab}
+        for u, l in tab.items():
+            for w in l:
+                rev.setdefault(w, []).append(u)
+        nodeset = set(nodes)
+        tab = {u: l for u, l in rev.items() if u in nodeset or l}
+    elif op == "clear":
+        tab = {u: [] for u in nodes}
+    for u in nodes:
+        tab.setdefault(u, [])
+    c["table"] = [[u, tab[u]] for u in tab]
+    c["op"] = op
+    return c
+
+
+def gen_history(rng):
+    base = gen_graph(rng, False)
+    base["missing"] = "empty"
+    if "labels" not in base and rng.random() < 0.5:
+        relabel_odd(rng, base)
+    uni = universe(base)
+    if "labels" in base:  # spare labels for the `widen` step
+        k = len(uni)
+        extra = [i for i in range(len(ODD)) if i not in base["labels"]][:3]
+        base["labels"] = base["labels"] + extra
+        base["spare"] = list(range(k, k + len(extra)))
+    else:
+        base["spare"] = [f"w{i}" for i in range(3)]
+    steps = [base]
+    for _ in range(rng.randint(1, 3)):
+        steps.append(mutate_graph(rng, steps[-1]))
+    orders = [rng.sample(["scc", "topo", "cond"], 3) for _ in steps]
+    return {"kind": "history", "steps": steps, "orders": orders}
+
+
+def gen_ehistory(rng):
+    steps = [gen_edges(rng, False)]
+    for _ in range(rng.randint(1, 3)):
+        prev = steps[-1]
+        op = rng.choice(["same", "edit", "narrow", "widen", "fresh"])
+        n, edges = prev["n"], [list(e) for e in prev["edges"]]
+        if op == "edit" and n:
+            for _ in range(rng.randint(1, 3)):
+                if edges and rng.random() < 0.5:
+                    edges.pop(rng.randrange(len(edges)))
+                else:
+                    edges.append([rng.randrange(n), rng.randrange(n)])
+        elif op == "narrow" and n >= 2:
+            n = rng.randint(1, n - 1)
+            edges = [e for e in edges if e[0] < n and e[1] < n]
+        elif op == "widen":
+            n += rng.randint(1, 2)
+            edges.append([rng.randrange(n), n - 1])
+        elif op == "fresh":
+            f = gen_edges(rng, False)
+            n, edges = f["n"], f["edges"]
+        steps.append({"kind": "edges", "n": n, "edges": edges, "style": prev.get("style", "tuples"), "op": op})
+    return {"kind": "ehistory", "steps": steps, "first": [rng.choice(["scc", "topo"]) for _ in steps]}
+
+
+def big_graph(case):
+    """(node list, neighbour lists indexed by vertex) of a large structured graph, from its recipe."""
+    n, shape = case["n"], case["shape"]
+    nodes = list(range(n))
+    if shape == "path":
+        adj = [[i + 1] if i + 1 < n else [] for i in range(n)]
+    elif shape == "rpath":  # same chain, listed sink first: no deep descent
+        adj = [[i + 1] if i + 1 < n else [] for i in range(n)]
+        nodes.reverse()
+    elif shape == "cycle":
+        adj = [[(i + 1) % n] for i in range(n)]
+    elif shape == "dag":  # deep DAG with skip edges and duplicates
+        adj = [[j for j in (i + 1, i + 2, i + 7, i + 1) if j < n] for i in range(n)]
+    elif shape == "star":
+        adj = [list(range(1, n))] + [[] for _ in range(n - 1)]
+    elif shape == "wide_dag":  # layers of 50 vertices, each vertex points to three vertices of the next layer
+        adj = [[j for j in (i - i % 50 + 50 + (i * 7 + k) % 50 for k in (0, 1, 2)) if j < n] for i in range(n)]
+    elif shape == "small_comps":  # many 3-cycles, each feeding the next one
+        adj = [[i - i % 3 + (i + 1) % 3] + ([i + 3] if i % 3 == 0 and i + 3 < n else []) for i in range(n)]
+        adj = [[j for j in l if j < n] for l in adj]
+        nodes.reverse()  # listed sink first: no deep descent
+    elif shape == "two_cycles":  # two big components joined by one edge
+        h = n // 2
+        adj = [[(i + 1) % h] for i in range(h)] + [[h + (i + 1) % (n - h)] for i in range(n - h)]
+        adj[0] = adj[0] + [h]
+    else:
+        raise ValueError(shape)
+    return nodes, adj
+
+
+# families on which `strongconnect` recurses as deep as the graph is long; the module docstring of scc.py
+# documents that such inputs need a raised recursion limit, so they run with it raised (see `impl`)
+DEEP_SHAPES = ("path", "cycle", "dag", "two_cycles")
+SHALLOW_SHAPES = ("rpath", "star", "wide_dag", "small_comps")
+
+
+def gen_big(rng, thorough: bool):
+    shape = rng.choice(DEEP_SHAPES + SHALLOW_SHAPES)
+    n = rng.choice([1100, 1500, 2000, 3000]) if thorough else rng.choice([1100, 1300, 1500])
+    return {"kind": "big", "shape": shape, "n": n, "nbr_style": rng.choice(["list", "tuple", "gen", "alias"])}
 
 
 def gen_edges(rng, big: bool):
@@ -154,7 +356,7 @@ def gen_edges(rng, big: bool):
     if edges and rng.random() < 0.3:
         edges.append(list(rng.choice(edges)))
     rng.shuffle(edges)
-    return {"kind": "edges", "n": n, "edges": edges}
+    return {"kind": "edges", "n": n, "edges": edges, "style": rng.choice(EDGE_STYLES)}
 
 
 def edge_cases():
@@ -201,18 +403,45 @@ def universe(case):
     return out
 
 
-def impl(case):
-    from solvor import scc as S
-    if case["kind"] == "edges":
-        n, edges = case["n"], [tuple(e) for e in case["edges"]]
-        r1 = S.strongly_connected_components_edges(n, list(edges), backend="python")
-        r2 = S.topological_sort_edges(n, list(edges), backend="python")
-        return {"scc": {"status": r1.status.name, "sol": [list(c) for c in r1.solution], "objective": r1.objective},
-                "topo": {"status": r2.status.name, "sol": None if r2.solution is None else list(r2.solution)}}
-    ids = {v: i for i, v in enumerate(universe(case))}
-    table = {e[0]: list(e[1]) for e in case["table"]}
-    missing, nstyle = case["missing"], case["nbr_style"]
+def _canon_result(kind, r, ids):
+    """JSON-able canonical form of one Result (labels -> the small integers Lean sees)."""
+    if kind == "scc":
+        return {"status": r.status.name, "sol": [[ids[x] for x in c] for c in r.solution], "objective": r.objective}
+    if kind == "topo":
+        return {"status": r.status.name, "sol": None if r.solution is None else [ids[x] for x in r.solution]}
+    cn, adjd = r.solution
+    pos = {}
+    for i, fs in enumerate(cn):
+        pos.setdefault(fs, i)
+    ok_shape = (all(isinstance(fs, frozenset) for fs in cn) and len(pos) == len(cn)
+                and set(adjd.keys()) == set(cn) and all(t in pos for l in adjd.values() for t in l))
+    comps = [sorted(ids[x] for x in fs) for fs in cn]
+    cadj = [sorted(pos[t] for t in adjd[fs]) for fs in cn] if ok_shape else None
+    dup_succ = bool(ok_shape and any(len(set(l)) != len(l) for l in cadj))
+    return {"status": r.status.name, "comps": comps, "cadj": cadj, "shape_ok": ok_shape, "dup_succ": dup_succ}
 
+
+def _round(S, nodes_fn, nb, ids, order, twice=True):
+    """One round of the three entry points, in the given order, each guarded separately."""
+    out = {}
+    for name in order:
+        try:
+            if name == "scc":
+                r = S.strongly_connected_components(nodes_fn(), nb)
+                out["scc"] = _canon_result("scc", r, ids)
+                if twice:
+                    again = _canon_result("scc", S.strongly_connected_components(nodes_fn(), nb), ids)
+                    out["scc"]["same_again"] = again["sol"] == out["scc"]["sol"]
+            elif name == "topo":
+                out["topo"] = _canon_result("topo", S.topological_sort(nodes_fn(), nb), ids)
+            else:
+                out["cond"] = _canon_result("cond", S.condense(nodes_fn(), nb), ids)
+        except Exception as e:  # noqa: BLE001 - the error kind is an observable
+            out[name] = {"error": f"{type(e).__name__}: {e}"[:200]}
+    return out
+
+
+def _make_nb(table, missing, style):
     def nb(v):
         if v in table:
             lst = table[v]
@@ -220,61 +449,104 @@ def impl(case):
             raise KeyError(v)
         else:
             lst = []
-        if nstyle == "tuple":
-            return tuple(lst)
-        if nstyle == "gen":
-            return (w for w in lst)
-        return list(lst)
+        return present(style, lst)
+    return nb
 
-    def nodes():
-        st = case["nodes_style"]
-        if st == "tuple":
-            return tuple(case["nodes"])
-        if st == "gen":
-            return (v for v in case["nodes"])
-        if st == "dictkeys":
-            return {v: None for v in case["nodes"]}.keys()
-        return list(case["nodes"])
 
+def _edges_obj(case):
+    st = case.get("style", "tuples")
+    if st == "lists":
+        return [list(e) for e in case["edges"]]
+    if st == "aliased":  # equal edges are ONE tuple object
+        pool = {}
+        return [pool.setdefault(tuple(e), tuple(e)) for e in case["edges"]]
+    return [tuple(e) for e in case["edges"]]
+
+
+def _edges_round(S, n, edges, first="scc"):
     out = {}
-
-    def guard(name, f):
+    for name in (("scc", "topo") if first == "scc" else ("topo", "scc")):
         try:
-            out[name] = f()
-        except Exception as e:  # noqa: BLE001 - the error kind is an observable
+            if name == "scc":
+                r = S.strongly_connected_components_edges(n, edges, backend="python")
+                out["scc"] = {"status": r.status.name, "sol": [list(c) for c in r.solution], "objective": r.objective}
+            else:
+                r = S.topological_sort_edges(n, edges, backend="python")
+                out["topo"] = {"status": r.status.name, "sol": None if r.solution is None else list(r.solution)}
+        except Exception as e:  # noqa: BLE001
             out[name] = {"error": f"{type(e).__name__}: {e}"[:200]}
-
-    def f_scc():
-        r = S.strongly_connected_components(nodes(), nb)
-        r_again = S.strongly_connected_components(nodes(), nb)
-        sol = [[ids[x] for x in c] for c in r.solution]
-        return {"status": r.status.name, "sol": sol, "objective": r.objective,
-                "same_again": sol == [[ids[x] for x in c] for c in r_again.solution]}
-
-    def f_topo():
-        r = S.topological_sort(nodes(), nb)
-        return {"status": r.status.name, "sol": None if r.solution is None else [ids[x] for x in r.solution]}
-
-    def f_cond():
-        r = S.condense(nodes(), nb)
-        cn, adjd = r.solution
-        pos = {}
-        for i, fs in enumerate(cn):
-            pos.setdefault(fs, i)
-        ok_shape = (all(isinstance(fs, frozenset) for fs in cn) and len(pos) == len(cn)
-                    and set(adjd.keys()) == set(cn) and all(t in pos for l in adjd.values() for t in l))
-        comps = [sorted(ids[x] for x in fs) for fs in cn]
-        cadj = [sorted(pos[t] for t in adjd[fs]) for fs in cn] if ok_shape else None
-        dup_succ = ok_shape and any(len(set(l)) != len(l) for l in cadj)
-        return {"status": r.status.name, "comps": comps, "cadj": cadj, "shape_ok": ok_shape, "dup_succ": dup_succ}
-
-    guard("scc", f_scc)
-    guard("topo", f_topo)
-    guard("cond", f_cond)
     return out
 
 
+def impl(case):
+    from solvor import scc as S
+    kind = case["kind"]
+    if kind == "edges":
+        # the same list object goes to both entry points
+        return _edges_round(S, case["n"], _edges_obj(case))
+    if kind == "ehistory":
+        shared: list = []
+        outs = []
+        for st, first in zip(case["steps"], case["first"]):
+            shared[:] = _edges_obj(st)  # ONE list object, edited in place between the rounds
+            outs.append(_edges_round(S, st["n"], shared, first))
+        return outs
+    if kind == "big":
+        nodes, adj = big_graph(case)
+        style = case["nbr_style"]
+        ids = range(case["n"])  # identity
+        nb = lambda v: present(style, adj[v])  # noqa: E731
+        import sys
+        old_limit = sys.getrecursionlimit()
+        if case["shape"] in DEEP_SHAPES:
+            # scc.py: "For very deep graphs (>1000 nodes in a single path), you may need to increase the
+            # recursion limit: sys.setrecursionlimit(5000)" - follow the documentation for these families
+            sys.setrecursionlimit(max(5000, 4 * case["n"]))
+        try:
+            out = _round(S, lambda: list(nodes), nb, ids, ["scc", "topo", "cond"], twice=False)
+            if nodes == sorted(nodes):  # the _edges variants fix the node order 0..n-1
+                edges = [(u, w) for u in range(case["n"]) for w in adj[u]]
+                e = _edges_round(S, case["n"], edges)
+                out["scc_edges"], out["topo_edges"] = e["scc"], e["topo"]
+        finally:
+            sys.setrecursionlimit(old_limit)
+        return out
+    if kind == "history":
+        table: dict = {}
+        node_obj: list = []
+        first = case["steps"][0]
+        nb = _make_nb(table, "empty", first["nbr_style"])  # ONE function object for the whole history
+        outs = []
+        for st, order in zip(case["steps"], case["orders"]):
+            lab = labeller(st)
+            table.clear()  # ONE adjacency dict, edited in place
+            for e in st["table"]:
+                table[lab(e[0])] = [lab(w) for w in e[1]]
+            node_obj[:] = [lab(v) for v in st["nodes"]]
+            ids = {lab(v): i for i, v in enumerate(universe(st))}
+            outs.append(_round(S, lambda: present(first["nodes_style"], node_obj), nb, ids, order))
+        return outs
+    lab = labeller(case)
+    ids = {lab(v): i for i, v in enumerate(universe(case))}
+    table = {lab(e[0]): [lab(w) for w in e[1]] for e in case["table"]}
+    node_list = [lab(v) for v in case["nodes"]]
+    nb = _make_nb(table, case["missing"], case["nbr_style"])
+    return _round(S, lambda: present(case["nodes_style"], node_list), nb, ids, ["scc", "topo", "cond"])
+
+
+def units(case, out):
+    """Split a case into independently judged (sub-case, outcome) pairs."""
+    if case["kind"] in ("history", "ehistory"):
+        if out[0] != "ok":
+            return [(case["steps"][0], out)]
+        return [(st, ("ok", o)) for st, o in zip(case["steps"], out[1])]
+    return [(case, out)]
+
+
 def to_request(case, out):
+    if case["kind"] == "big":
+        nodes, adj = big_graph(case)
+        return ["big", nodes, [[v, adj[v]] for v in range(case["n"])]]
     if case["kind"] == "edges":
         n = case["n"]
         nodes = list(range(n))
@@ -417,17 +689,69 @@ def failures(case, out, reply):
     return fails, tdivs, counts
 
 
+def failures_big(case, out, reply):
+    """Large structured graphs: the returned values must equal the mirrors' (proved correct for every input:
+    tarjan_correct_closed, kahn_correct, condense_correct); RecursionError / MemoryError is a failure."""
+    deep = case["shape"] in DEEP_SHAPES
+    fails, tdivs, counts = [], [], [f"large:{case['shape']}",
+                                    "large:recursion_limit_raised_as_documented" if deep else "large:default_recursion_limit"]
+    if out[0] != "ok":
+        return [(FUNCS[0], "raises:" + err_kind(out) + ":large", f"valid input raised/timed out: {out[1]}")], [], counts
+    closed, m_scc, m_topo, m_cadj = reply
+    if not closed:
+        raise core.Infra("large instance is not closed under its neighbour lists")
+    r = out[1]
+    want = {"scc": ("sol", m_scc), "topo": ("sol", m_topo), "scc_edges": ("sol", m_scc), "topo_edges": ("sol", m_topo)}
+    names = {"scc": FUNCS[0], "topo": FUNCS[1], "cond": FUNCS[2], "scc_edges": FUNCS[0] + "_edges",
+             "topo_edges": FUNCS[1] + "_edges"}
+    for key, fn in names.items():
+        if key not in r:
+            continue
+        o = r[key]
+        if "error" in o:
+            kind = o["error"].split(":")[0]
+            # deep families ran with the limit raised to max(5000, 4n) as the module documents; the shallow
+            # ones never nest more than a few calls, so a RecursionError is a failure in both situations
+            klass = f"raises:{kind}:large" + (":limit_raised" if deep else ":shallow_graph")
+            fails.append((fn, klass, f"valid input ({case['shape']}, {case['n']} nodes) raised: {o['error']}"))
+            continue
+        if key == "cond":
+            same = o["shape_ok"] and (o["comps"], o["cadj"]) == ([sorted(c) for c in m_scc], [sorted(l) for l in m_cadj])
+        else:
+            same = o["sol"] == want[key][1]
+        if same:
+            counts.append("large:equals_proved_mirror")
+        else:
+            # a different answer on a large instance cannot be decided cheaply by the cubic checkers: R_trace
+            tdivs.append((fn, {"large": case, "differs_from_proved_mirror": key}))
+    return fails, tdivs, counts
+
+
 def evaluate(cases):
-    outs = run_pool(impl, cases, timeout=30.0)
-    reqs = [to_request(c, o[1] if o[0] == "ok" else None) for c, o in zip(cases, outs)]
-    replies = Driver("Graph").run(reqs, chunks=8)
-    for rp in replies:
+    """-> per case the list of judged units (sub-case, outcome, model reply)."""
+    outs = run_pool(impl, cases, timeout=60.0)
+    flat = [(ci, sub, o) for ci, (c, out) in enumerate(zip(cases, outs)) for sub, o in units(c, out)]
+    reqs = [to_request(sub, o[1] if o[0] == "ok" else None) for _, sub, o in flat]
+    replies = Driver("Graph").run(reqs, chunks=12)
+    res = [[] for _ in cases]
+    for (ci, sub, o), rp in zip(flat, replies):
         if rp and rp[0] == "error":
             raise core.Infra(f"Graph model rejected a request: {rp}")
-        if len(rp) != 9 or rp[8] is not True:
+        if sub["kind"] != "big" and (len(rp) != 9 or rp[8] is not True):
             # hypothesis of the chk…Open_correct theorems (universe closed, contains the node list)
             raise core.Infra(f"Graph driver: request universe not closed under the neighbour table: {rp}")
-    return outs, replies
+        res[ci].append((sub, o, rp))
+    return res
+
+
+def judge(sub, o, rp):
+    return failures_big(sub, o, rp) if sub["kind"] == "big" else failures(sub, o, rp)
+
+
+def fails_alone(sub, fn, klass):
+    """Does the same clause fail when this input is the only call of a fresh process?"""
+    (unit,) = evaluate([sub])[0]
+    return any((f, k) == (fn, klass) for f, k, _ in judge(*unit)[0])
 
 
 def shrink(case, fn, klass):
@@ -450,8 +774,8 @@ def shrink(case, fn, klass):
                     cands.append({**case, "table": case["table"][:i] + [e2] + case["table"][i + 1:]})
         if not cands:
             break
-        outs, replies = evaluate(cands)
-        for c, o, rp in zip(cands, outs, replies):
+        for c, us in zip(cands, evaluate(cands)):
+            (_, o, rp) = us[0]
             if any((f, k) == (fn, klass) for f, k, _ in failures(c, o, rp)[0]):
                 hist.append({"nodes": len(c.get("nodes", [])), "edges": sum(len(e[1]) for e in c.get("table", []))
                              if c["kind"] == "graph" else len(c["edges"])})
@@ -462,41 +786,82 @@ def shrink(case, fn, klass):
     return case, hist
 
 
+def record_styles(ctx, case):
+    k = case["kind"]
+    if k == "graph":
+        ctx.count("nodes_style:" + case["nodes_style"])
+        ctx.count("nbr_style:" + case["nbr_style"])
+        ctx.count("labels:" + ("odd_hashables" if case.get("labels") else "plain"))
+        if case.get("labels") and 0 in [case["labels"][x] for x in universe(case)]:
+            ctx.count("labels:None_is_a_label")
+    elif k == "edges":
+        ctx.count("edges_style:" + case.get("style", "tuples"))
+    elif k == "history":
+        ctx.count(f"history:graph:{len(case['steps'])}_rounds")
+        for st in case["steps"][1:]:
+            ctx.count("history:op:" + st.get("op", "?"))
+    elif k == "ehistory":
+        ctx.count(f"history:edges:{len(case['steps'])}_rounds")
+    elif k == "big":
+        ctx.count(f"large:n={case['n']}")
+
+
 def run_cases(ctx, cases, do_shrink=True):
-    outs, replies = evaluate(cases)
-    shrunk = 0
-    for case, out, rp in zip(cases, outs, replies):
-        fails, tdivs, counts = failures(case, out, rp)
-        for k in counts:
-            ctx.count(k)
+    shrunk = rechecked = 0
+    for case, us in zip(cases, evaluate(cases)):
+        record_styles(ctx, case)
         ctx.count("kind:" + case["kind"] + (":dup_nodes" if case.get("dup") else ""))
-        closed, m_scc, m_topo, m_cadj, cert = rp[0], rp[1], rp[2], rp[3], rp[4]
-        ctx.cov["cert_checked_model"] = ctx.cov.get("cert_checked_model", 0) + 1
-        ctx.cov["cert_checked_impl"] = ctx.cov.get("cert_checked_impl", 0) + sum(v is not None for v in rp[5:8])
-        if not tdivs:
-            ctx.cov["r_trace_agree"] = ctx.cov.get("r_trace_agree", 0) + 1
-        for fn, klass, what in fails:
-            rep = {"case": case, "impl": out, "model": rp}
-            if do_shrink and shrunk < 3 and ctx.known_match(fn, klass) is None:
-                shrunk += 1
-                small, hist = shrink(case, fn, klass)
-                so, sr = evaluate([small])
-                rep = {"case": small, "impl": so[0], "model": sr[0], "original_case": case, "shrink_history": hist}
-            ctx.fail(fn, klass, what, rep)
-        for fn, detail in tdivs:
-            ctx.tdiv(fn, {"case": case, **detail})
-        if case["kind"] == "graph":
-            tab = {e[0]: e[1] for e in case["table"]}
-            loops = any(v in tab.get(v, []) for v in case["nodes"])
-            canon = [case["nodes"], sorted(([e[0], e[1]] for e in case["table"]), key=lambda e: _key(e[0]))]
-        else:
-            loops = any(u == v for u, v in case["edges"])
-            canon = [case["n"], case["edges"]]
-        nontrivial = loops or any(len(c) >= 2 for c in m_scc)
-        if nontrivial:
-            ctx.count("nontrivial:big_component" if any(len(c) >= 2 for c in m_scc) else "nontrivial:self_loop_only")
-        ctx.case(canon, nontrivial, {"case": case, "impl": out[1] if out[0] == "ok" else out,
-                                     "mirror": {"scc": m_scc, "topo": m_topo, "cadj": m_cadj}, "closed": closed})
+        for ui, (sub, out, rp) in enumerate(us):
+            fails, tdivs, counts = judge(sub, out, rp)
+            for k in counts:
+                ctx.count(k)
+            ctx.cov["cert_checked_model"] = ctx.cov.get("cert_checked_model", 0) + 1
+            if not tdivs:
+                ctx.cov["r_trace_agree"] = ctx.cov.get("r_trace_agree", 0) + 1
+            if sub["kind"] == "big":
+                m_scc = rp[1]
+                closed = True
+            else:
+                closed, m_scc, m_topo, m_cadj = rp[0], rp[1], rp[2], rp[3]
+                ctx.cov["cert_checked_impl"] = ctx.cov.get("cert_checked_impl", 0) + sum(v is not None for v in rp[5:8])
+            for fn, klass, what in fails:
+                rep = {"case": case, "round": ui, "impl": out, "model": rp if sub["kind"] != "big" else "(large)"}
+                in_history = case["kind"] in ("history", "ehistory")
+                if rechecked < 12 and ctx.known_match(fn, klass) is None and ":large" not in klass:
+                    # state left over from an earlier call (in this history, or in this worker process)?
+                    rechecked += 1
+                    if not fails_alone(sub, fn, klass):
+                        klass += ":after_previous_call"
+                        what += " — the same input passes when it is the only call of a fresh process"
+                        rep["passes_alone"] = True
+                if (do_shrink and shrunk < 3 and not in_history and sub["kind"] in ("graph", "edges")
+                        and not klass.endswith(":after_previous_call") and ctx.known_match(fn, klass) is None):
+                    shrunk += 1
+                    small, hist = shrink(sub, fn, klass)
+                    (_, so, sr) = evaluate([small])[0][0]
+                    rep = {"case": small, "impl": so, "model": sr, "original_case": case, "shrink_history": hist}
+                ctx.fail(fn, klass, what, rep)
+            for fn, detail in tdivs:
+                ctx.tdiv(fn, {"case": case if sub["kind"] != "big" else sub, "round": ui, **detail})
+            if sub["kind"] == "graph":
+                tab = {e[0]: e[1] for e in sub["table"]}
+                loops = any(v in tab.get(v, []) for v in sub["nodes"])
+                canon = [sub["nodes"], sorted(([e[0], e[1]] for e in sub["table"]), key=lambda e: _key(e[0])),
+                         sub.get("labels")]
+            elif sub["kind"] == "edges":
+                loops = any(u == v for u, v in sub["edges"])
+                canon = [sub["n"], sub["edges"]]
+            else:
+                loops = False
+                canon = [sub["shape"], sub["n"]]
+            nontrivial = loops or any(len(c) >= 2 for c in m_scc)
+            if nontrivial:
+                ctx.count("nontrivial:big_component" if any(len(c) >= 2 for c in m_scc) else "nontrivial:self_loop_only")
+            sample = None
+            if sub["kind"] != "big":
+                sample = {"case": sub, "impl": out[1] if out[0] == "ok" else out,
+                          "mirror": {"scc": m_scc, "topo": rp[2], "cadj": rp[3]}, "closed": closed}
+            ctx.case(canon, nontrivial, sample)
 
 
 def run(ctx, budget):
@@ -510,8 +875,17 @@ def run(ctx, budget):
             cases.append(gen_edges(ctx.rng, big and i % 3 == 0))
         elif r == 9 and i % 50 == 9:
             cases.append(gen_dup(ctx.rng))
+        elif r == 7:  # fixed share: call histories (graph rounds / edge-list rounds)
+            cases.append(gen_ehistory(ctx.rng) if i % 40 == 7 else gen_history(ctx.rng))
         else:
             cases.append(gen_graph(ctx.rng, big and i % 3 == 0))
+    # fixed share: large structured graphs (every shape at least once per run)
+    for sh in DEEP_SHAPES + SHALLOW_SHAPES:
+        c = gen_big(ctx.rng, big)
+        c["shape"] = sh
+        cases.append(c)
+    for _ in range(8 * (budget > 1)):
+        cases.append(gen_big(ctx.rng, big))
     run_cases(ctx, cases)
 
 
